@@ -28,10 +28,28 @@ fn radial_spec(sym: usize) -> Option<(u8, Vec<usize>, Option<u16>)> {
     }
 }
 
+thread_local! {
+    /// How the message headers describe segmentation: 0 = every message is "segment 1 of 1";
+    /// 1 = message at position p is "segment (p mod 3) + 1 of 3"; 2 = "segment p + 2 of 65535".
+    /// Every entry of the decoded list is one message whatever its header says about segments.
+    static SEGMENT_MODE: std::cell::Cell<u8> = const { std::cell::Cell::new(0) };
+}
+
 fn build_message(sym: usize, pos: usize) -> dm::Message {
     let time = 1000 * (pos as u32 + 1);
     let mut mh = MsgHeader::simple(0, 19000, time);
     mh.seq = pos as u16;
+    match SEGMENT_MODE.with(|m| m.get()) {
+        1 => {
+            mh.count = 3;
+            mh.number = (pos % 3) as u16 + 1;
+        }
+        2 => {
+            mh.count = 65535;
+            mh.number = pos as u16 + 2;
+        }
+        _ => {}
+    }
     let bytes = match sym {
         3 => {
             mh.typ = 2;
@@ -139,7 +157,8 @@ fn hdr_time(m: &dm::Message) -> Option<DateTime<Utc>> {
 /// Returns an outcome label after checking all invariants for `word`.
 pub fn check_word(ctx: &Ctx, cache: &Cache, word: &[u8]) -> &'static str {
     let msgs = cache.list(word);
-    let wit = || json!({"op": "word", "word": word});
+    let seg_mode = SEGMENT_MODE.with(|m| m.get());
+    let wit = || json!({"op": "word", "word": word, "segment_mode": seg_mode});
     let n = msgs.len();
     let m2 = msgs.clone();
     let sum = match guarded(move || summarize::messages(&m2)) {
@@ -402,6 +421,23 @@ pub fn run(ctx: &'static Ctx) -> (&'static str, Value, Vec<&'static str>) {
         |i| format!("list#{i}(len {})", halpha[i].len()),
     );
     stats = stats.merge(sh);
+    // header segmentation fields: every word of length <= 5 (thorough 6) again with the messages
+    // labelled "segment k of 3" / "segment p+2 of 65535"
+    for mode in [1u8, 2] {
+        SEGMENT_MODE.with(|m| m.set(mode));
+        let cache2 = Cache::new();
+        let maxlen = if ctx.tier.thorough() { 6 } else { 5 };
+        for len in 0..=maxlen {
+            for w in words(SYMS.len() as u64, len) {
+                let word: Vec<u8> = w.iter().map(|x| *x as u8).collect();
+                let o = check_word(ctx, &cache2, &word);
+                stats.eval();
+                stats.outcome(o);
+            }
+        }
+        stats.count("words_with_segmented_headers", 1);
+    }
+    SEGMENT_MODE.with(|m| m.set(0));
     let mut cov = stats.coverage(
         "stateright BFS over message words: alphabet {R1 (elev 1, REF), R1v (elev 1, REF+VEL, VOL 212), R2 (elev 2, all moments, VOL 35), S, V, O3, O18} to depth 6 (thorough 7), {R1,R2} to depth 12 (14), {R1,R2,R3n,S[,R1v]} to depth 7 (8); each symbol is a real decoded Message stamped with its position; invariant runs the real summarize::messages in every state and checks tiling, count=span, maximal-run rule, continuation flags, data-type counts, first/last azimuth and time, collection-time range, VCP set, and a split differential from non-initial states; plus 200 lists in which an elevation is resumed after k = 1..=100 intervening groups. non-trivial = >=2 reference groups",
         true,
@@ -423,7 +459,9 @@ pub fn replay(ctx: &'static Ctx, case: &Value) {
         return;
     }
     let w: Vec<u8> = case["word"].as_array().map(|a| a.iter().map(|x| x.as_u64().unwrap_or(0) as u8).collect()).unwrap_or_default();
+    SEGMENT_MODE.with(|m| m.set(case["segment_mode"].as_u64().unwrap_or(0) as u8));
     let cache = Cache::new();
     let o = check_word(ctx, &cache, &w);
+    SEGMENT_MODE.with(|m| m.set(0));
     println!("replay C14 {:?} -> {o}", w.iter().map(|x| SYMS[*x as usize]).collect::<Vec<_>>());
 }
